@@ -66,6 +66,8 @@ type HTTPGroup struct {
 	domain          string
 	location        string
 	routeByHTTPUser string
+	username        string
+	password        string
 
 	// CreateConnFuncs indexed by proxy name
 	createFuncs map[string]vhost.CreateConnFunc
@@ -105,9 +107,12 @@ func (g *HTTPGroup) Register(
 		g.domain = routeConfig.Domain
 		g.location = routeConfig.Location
 		g.routeByHTTPUser = routeConfig.RouteByHTTPUser
+		g.username = routeConfig.Username
+		g.password = routeConfig.Password
 	} else {
 		if g.group != group || g.domain != routeConfig.Domain ||
-			g.location != routeConfig.Location || g.routeByHTTPUser != routeConfig.RouteByHTTPUser {
+			g.location != routeConfig.Location || g.routeByHTTPUser != routeConfig.RouteByHTTPUser ||
+			g.username != routeConfig.Username || g.password != routeConfig.Password {
 			err = ErrGroupParamsInvalid
 			return
 		}
